@@ -117,6 +117,18 @@ func (f *File) syncWithoutLocking() error {
 	}
 
 	if f.writeBuf != nil {
+		// The entry may have been removed while the handle was open; flushing would bring it back without its parents
+		if _, err := inventory.Stat(
+			f.metadata,
+
+			f.path,
+			false,
+
+			f.onHeader,
+		); err == sql.ErrNoRows {
+			return nil
+		}
+
 		// Flushing must neither close the buffer nor move the cursor
 		pos, err := f.writeBuf.Seek(0, io.SeekCurrent)
 		if err != nil {
